@@ -40,7 +40,7 @@ ASSUMPTIONS = [
 ]
 
 HDR_S = 'From ScaredV Require Import Model.Signal.'
-HDR_P = 'From ScaredV Require Import Model.Peaks.\nFrom Coq Require Import Uint63.'
+HDR_P = 'From ScaredV Require Import Model.Peaks.'
 
 F = core.float_to_coq
 
@@ -415,16 +415,9 @@ def _signals(alphabet, nmax):
             yield list(t)
 
 
-def _pack(sets, bits):
-    """Sets of naturals < bits -> list of 62-bit words, 62 // max(bits, 1) sets per word (see Model/Peaks.v: unpack)."""
-    per = 62 // max(bits, 1)
-    words = []
-    for q, st in enumerate(sets):
-        if q % per == 0:
-            words.append(0)
-        for v in st:
-            words[-1] |= 1 << ((q % per) * bits + v)
-    return words
+def _mask(st):
+    """Set of small naturals -> bit mask (see Model/Peaks.v: unmask)."""
+    return sum(1 << v for v in st)
 
 
 def _zheight(h):
@@ -446,7 +439,8 @@ class PeaksKind(Kind):
     explain_fn = 'pk_expected'
     shard = 400
     rule = ('find_peaks(data, d, h): EVERY 1-D signal of length 0..7 (quick) / 0..9 (thorough) over a 3-value alphabet x every '
-            'distance 0..len+1 x heights {-inf, below, each value, between, above, +inf}; 4-value alphabet sampled; plateaus, ties, '
+            'distance 0..len+1 x heights {-inf, below, each value, between, above, +inf}; 4-value alphabet sampled (quick) / every signal of '
+            'length 0..8 (thorough); plateaus, ties, '
             'peaks at both ends and every last sample are all in that block; random signals of length 10..80 with random distances '
             'and heights (int and float dtypes); the D10 regression signal; checked: candidates only, ascending and >= d apart, every '
             'dropped candidate dominated, equality with the repaired scan; non-trivial = at least two candidates and d >= 2')
@@ -462,13 +456,17 @@ class PeaksKind(Kind):
             n = len(sig)
             hs = heights3 if n <= 5 else ['-inf', 2, 3, 4, '+inf'] if n <= 7 else ['-inf', 2, 3, 4]   # 1 ~ 2 and 5 ~ +inf select the same samples
             yield self._grid_case(sig, 2, 'float64' if n % 2 else 'float32', hs, n + 2)
-        # 4-value alphabet, sampled
-        n4 = 2500 if tier == 'quick' else 60000
-        for _ in range(n4):
-            n = rng.randint(4, nmax + 1)
-            sig = [rng.choice([0, 1, 2, 3]) for _ in range(n)]
-            yield self._grid_case(sig, 1, rng.choice(['int16', 'uint8', 'float64', 'int64']),
-                                  rng.sample(['-inf', 0, 1, 2, 3, 4], 3), n + 2)
+        # 4-value alphabet: sampled (quick) / every signal of length <= 8 with three of the six height positions (thorough)
+        h4 = ['-inf', 0, 1, 2, 3, 4]
+        if tier == 'quick':
+            for _ in range(2500):
+                n = rng.randint(4, nmax + 1)
+                sig = [rng.choice([0, 1, 2, 3]) for _ in range(n)]
+                yield self._grid_case(sig, 1, rng.choice(['int16', 'uint8', 'float64', 'int64']), rng.sample(h4, 3), n + 2)
+        else:
+            for sig in _signals([0, 1, 2, 3], 8):
+                n = len(sig)
+                yield self._grid_case(sig, 1, ['int16', 'uint8', 'float64', 'int64'][n % 4], rng.sample(h4, 3), n + 2)
         # random longer signals
         nl = 300 if tier == 'quick' else 6000
         for k in range(nl):
@@ -515,10 +513,10 @@ class PeaksKind(Kind):
         peaks = obs.get('peaks', [[] for _ in case['queries']])
         n = len(case['data'])
         grid = case.get('grid')
-        if grid and n <= 60 and all(all(0 <= p < n for p in pk) and all(a < b for a, b in zip(pk, pk[1:])) for pk in peaks):
-            masks = _pack(peaks, n)
-            return '{| pk_data := %s; pk_queries := []; pk_hs := %s; pk_nd := %s; pk_masks := %s%%uint63 |}' % (
-                C.coq_list(case['data'], C.coq_z), C.coq_list(grid['hs'], _zheight), C.coq_nat(grid['nd']), C.coq_list(masks))
+        if grid and n <= 12 and all(all(0 <= p < n for p in pk) and all(a < b for a, b in zip(pk, pk[1:])) for pk in peaks):
+            return '{| pk_data := %s; pk_queries := []; pk_hs := %s; pk_nd := %s; pk_masks := %s%%N |}' % (
+                C.coq_list(case['data'], C.coq_z), C.coq_list(grid['hs'], _zheight), C.coq_nat(grid['nd']),
+                C.coq_list([_mask(pk) for pk in peaks]))
         qs = ['pkq %d %s %s%%nat' % (d, _zheight(h), C.coq_list([p if 0 <= p < 5000 else 4999 for p in pk]))
               for (d, h), pk in zip(case['queries'], peaks)]
         return '{| pk_data := %s; pk_queries := %s; pk_hs := []; pk_nd := 0; pk_masks := [] |}' % (
@@ -654,9 +652,9 @@ class WidthKind(Kind):
             st, en = [a for a, _ in rw], [b for _, b in rw]
             return (all(0 <= v <= n for v in st + en) and all(a < b for a, b in zip(st, st[1:]))
                     and all(a < b for a, b in zip(en, en[1:])))
-        if grid and n <= 30 and all(ok(rw) for rw in rows):
-            masks = _pack([[a for a, _ in rw] + [n + 1 + b for _, b in rw] for rw in rows], 2 * (n + 1))
-            return '{| fw_data := %s; fw_queries := []; fw_thrs := %s; fw_modes := %s; fw_masks := %s%%uint63 |}' % (
+        if grid and n <= 12 and all(ok(rw) for rw in rows):
+            masks = [_mask([a for a, _ in rw] + [n + 1 + b for _, b in rw]) for rw in rows]
+            return '{| fw_data := %s; fw_queries := []; fw_thrs := %s; fw_modes := %s; fw_masks := %s%%N |}' % (
                 C.coq_list(case['data'], C.coq_z), C.coq_list(grid['thrs'], C.coq_z), C.coq_list(grid['modes'], _zwmode),
                 C.coq_list(masks))
         qs = []
